@@ -297,7 +297,7 @@ func c37Run(t *testing.T, limit, maxlen, maxq int, kind string, r *rand.Rand, fi
 	if err := node.Run(); err != nil {
 		t.Fatal(err)
 	}
-	defer func() { _ = node.Shutdown(context.Background()) }()
+	defer func() { go func() { _ = node.Shutdown(context.Background()) }() }() // the dissolver sleeps 1 s per job
 	ctx, cancel := context.WithCancel(context.Background())
 	tt := newTestTransport(cancel)
 	tt.setProtocolVersion(ProtocolVersion2)
@@ -307,7 +307,14 @@ func c37Run(t *testing.T, limit, maxlen, maxq int, kind string, r *rand.Rand, fi
 		t.Fatal(err)
 	}
 	h.client = client
-	defer func() { _ = closeFn() }()
+	defer func() {
+		// answer what the application still holds, otherwise close() waits 5 s on each subscribing gate
+		for tk, cb := range h.pending {
+			delete(h.pending, tk)
+			cb(false)
+		}
+		_ = closeFn()
+	}()
 	if !client.HandleCommand(&protocol.Command{Id: 1, Connect: &protocol.ConnectRequest{}}, 0) {
 		t.Fatalf("connect failed")
 	}
@@ -364,7 +371,7 @@ func c37Run(t *testing.T, limit, maxlen, maxq int, kind string, r *rand.Rand, fi
 				l = c37Label{Kind: "complete", Tok: tk, OK: r.Intn(4) != 0}
 			case x < 75:
 				name := 1 + r.Intn(7)
-				if prev, ok := used[name]; ok && r.Intn(3) != 0 {
+				if prev, ok := used[name]; ok {
 					l = prev
 					l.Script = []string{"ok", "ok", "err", "async", "async"}[r.Intn(5)]
 				} else {
